@@ -25,7 +25,7 @@ func genShape(rng *rand.Rand) string {
 var c16Payloads = []string{"x", "hello", "a b", "é", "日本", "", "\n", "\r", "\r\n", "a\nb", "a\r\nb\rc", "\n\n", "x\n", "\nx",
 	"data: y", "id: 7", "event: e", ": c", "\x00", "\xff\xfe", "retry: 1", " lead", "trail "}
 
-func genPayload(rng *rand.Rand) string {
+func genSrvPayload(rng *rand.Rand) string {
 	if rng.Intn(4) == 0 {
 		n := 1 + rng.Intn(4)
 		var sb strings.Builder
@@ -55,9 +55,9 @@ func genMsgItems(rng *rand.Rand) string {
 			}
 			items = append(items, "r="+strconv.FormatInt(r, 10))
 		case 4:
-			items = append(items, "c="+hxs(genPayload(rng)))
+			items = append(items, "c="+hxs(genSrvPayload(rng)))
 		default:
-			items = append(items, "d="+hxs(genPayload(rng)))
+			items = append(items, "d="+hxs(genSrvPayload(rng)))
 		}
 	}
 	if len(items) == 0 {
